@@ -162,6 +162,31 @@ def run(ctx):
         r3 = f(x[0])
         if not torch.allclose(r3.reshape(r1.shape), r1, atol=1e-6):
             ctx.violation('%s: a 3xHxW image differs from its 1x3xHxW batch' % name, {'fn': name}, {'what': 'rank3', 'fn': name})
+    # ---- the Lab pair also accepts channel-last images [m x n x 3] (color_map feeds lab_to_srgb that way): same pixels, same places,
+    # on non-square images, and the round trip / colour transfer onto itself return the image
+    for (hh, ww) in ((4, 5), (6, 6), (7, 2)):
+        g = torch.Generator().manual_seed(ctx.seed + hh * 31 + ww)
+        im = torch.rand(3, hh, ww, generator=g) * 0.9 + 0.05
+        ctx.case(('lab_layout', hh, ww), True)
+        try:
+            a = CC.srgb_to_lab(im)
+            b = CC.srgb_to_lab(im.permute(1, 2, 0).contiguous())
+            c = CC.lab_to_srgb(a)
+            d = CC.lab_to_srgb(a.permute(1, 2, 0).contiguous())
+            m = CC.color_map(im.clone(), im.clone())
+        except Exception as e:
+            ctx.note('Lab pair rejects a channel-last image: %r' % (e,))
+            continue
+        recl = {'fn': 'srgb_to_lab/lab_to_srgb', 'shape': [hh, ww]}
+        if a.shape != im.shape or b.shape != a.shape or not torch.allclose(a, b, atol=1e-5):
+            ctx.violation('srgb_to_lab of a channel-last %dx%dx3 image differs from the channel-first result (shapes %s vs %s)'
+                          % (hh, ww, tuple(b.shape), tuple(a.shape)), recl, {'what': 'layout', 'fn': 'srgb_to_lab'})
+        elif d.shape != c.shape or not torch.allclose(c, d, atol=1e-5):
+            ctx.violation('lab_to_srgb of a channel-last %dx%dx3 image differs from the channel-first result (shapes %s vs %s)'
+                          % (hh, ww, tuple(d.shape), tuple(c.shape)), recl, {'what': 'layout', 'fn': 'lab_to_srgb'})
+        elif not torch.allclose(c, im, atol=2e-3) or m.shape != im.shape or not torch.allclose(m, im, atol=2e-3):
+            ctx.violation('sRGB -> Lab -> sRGB (or the colour transfer of an image onto itself) does not return the %dx%d image' % (hh, ww), recl,
+                          {'what': 'lab_roundtrip', 'fn': 'image'})
     # ---- correspondence with the regenerated functions
     if outs is not None:
         it = iter(outs)
